@@ -13,11 +13,11 @@ CLAIMED = {
             "buffer unchanged. The model is tied to /repo on every run by evaluating it in Coq's VM on the same inputs as the implementation.",
             "Trusted: Coq kernel+VM, the hand model's fidelity as sampled by the correspondence (exhaustive small buffers, every p mod 8 x n mod 8), CPython int/bytes primitives.",
             "DESIGN.md section 4 C03, 8.1"),
-    "C02": ("Coq proof by induction over the packet list (loop invariant: unread buffer ++ pending reads = encoding of the remaining packets; any chunking, prefix k, trim threshold T, known/unknown total) + kernel-evaluated correspondence with ccsds_generator on bytes/file/socket sources + real >20 MB stream judged against the spec",
+    "C02": ("Coq proof by induction over the packet list (loop invariant: unread buffer ++ pending reads = encoding of the remaining packets; any chunking, prefix k, trim threshold T, known/unknown total) + kernel-evaluated correspondence with ccsds_generator on bytes/file/socket sources, also with the buffer-trim literal of its code object replaced by small numbers (same number given to the model) + real >20 MB stream judged against the spec",
             "Theorems C02_bytes_source / C02_file_socket_source / C02_loop_exact / C02_trim_and_chunking_irrelevant: for every list of CCSDS packets each preceded by k foreign bytes and every cutting of the stream into non-empty read results, the framer model yields exactly the packets, for all three source kinds, all T. Model tied to packets.ccsds_generator each run.",
-            "Trusted: Coq kernel+VM; reader contract (read/recv return the next bytes, b'' at end); correspondence sampling (small streams exhaustively chunked; the trim branch is reached only by the real 21 MB run judged against the spec, covered on the model side by the for-all-T theorem).",
+            "Trusted: Coq kernel+VM; reader contract (read/recv return the next bytes, b'' at end); correspondence sampling (small streams exhaustively chunked); the trim branch is reached by the real 21 MB runs and by rebuilding ccsds_generator's function object with the literal 20_000_000 replaced (harness/framing.py; skipped if the literal is absent).",
             "DESIGN.md section 4 C02, 8.3"),
-    "C10": ("Coq proof by induction on fuel (termination measure = unread bytes; items complete, consecutive, remainder short) for arbitrary bytes and read sequences + kernel-evaluated correspondence on every cut offset of valid streams and random byte strings",
+    "C10": ("Coq proof by induction on fuel (termination measure = unread bytes; items complete, consecutive, remainder short) for arbitrary bytes, read sequences and trim thresholds + kernel-evaluated correspondence on every cut offset of valid streams and random byte strings (a quarter also with a small trim threshold)",
             "Theorems C10_terminates_complete_consecutive / C10_remainder_short / C10_item_length_field hold for every byte string, every sequence of read results and every source kind: the loop ends without running out of fuel |input|+1, each item has the length its header declares, items are consecutive slices, and the remainder is shorter than one complete packet. The property determines the output uniquely, so model = implementation on a case is the property on that case.",
             "Trusted: Coq kernel+VM; reader contract; a socket that neither sends nor closes blocks by design. Genuine defect F1/F2 found by this check and repaired by a fix: commit (known_findings.json).",
             "DESIGN.md section 4 C10, 8.3"),
@@ -41,8 +41,8 @@ CLAIMED = {
             "Twelve theorems (Props/C06.v) for all environments, literals, operators and trees of any depth. Literal text parsing (int()/float()) is glue done by the harness; consumers (inheritance, calibrator choice) are exercised under C05/C08.",
             "Trusted: Coq kernel+VM; Python's int()/float() literal parsing; correspondence sampling. Genuine defects F3, F4, F16 found by this check and repaired by fix: commits.",
             "DESIGN.md section 4 C06"),
-    "C04": ("Coq proof (unsigned/two's-complement/byte-reversed integer value of the bit slice, cursor, class; float glue at every offset and order; all 65536 binary16 patterns by kernel computation against Flocq's binary16 decoder) + kernel-evaluated correspondence with IntegerDataEncoding/FloatDataEncoding.parse_value, bit-exact against struct",
-            "Theorems C04_uint, C04_sint, C04_signed_range, C04_lsb_uint, C04_lsb_sint, C04_float_glue, C04_half_exhaustive (bound 2^16 stated). partial: the IEEE meaning of binary32/64 and MIL-1750A patterns is Flocq's normalisation of the decoded fields, tied to struct.unpack by the correspondence (class boundaries, NaNs, subnormals, random) rather than by a general theorem.",
+    "C04": ("Coq proof (unsigned/two's-complement/byte-reversed integer value of the bit slice, cursor, class; float glue at every offset and order; all 65536 binary16 patterns by kernel computation against Flocq's binary16 decoder; the exact real value of every finite binary16/32/64 pattern as the standard defines it from the bit fields, infinities/NaN, and faithfulness of the 64-bit carrier) + kernel-evaluated correspondence with IntegerDataEncoding/FloatDataEncoding.parse_value, bit-exact against struct",
+            "Theorems C04_uint, C04_sint, C04_signed_range, C04_lsb_uint, C04_lsb_sint, C04_float_glue, C04_half_exhaustive (bound 2^16 stated), C04_ieee_value, C04_ieee_special, C04_carrier_faithful. partial: that struct.unpack implements the IEEE meaning, and the MIL-1750A pattern, are tied by the bit-exact correspondence (class boundaries, NaNs, subnormals, random).",
             "Trusted: Coq kernel+VM; Flocq 4.1 (its definitions depend on the standard library's real-number axioms, listed by Print Assumptions); struct.unpack.",
             "DESIGN.md section 4 C04"),
     "C08": ("Coq proof (selection order context > default > raw; calibrated results are floats keeping the raw value; exact integer polynomials; step-spline segment choice, closed upper end, extrapolation rule; enumeration/boolean on raw only) + kernel-evaluated, bit-exact correspondence with calibrators and parse_value (Flocq binary64, CPython 3.12 compensated sum modelled)",
@@ -73,8 +73,8 @@ CLAIMED = {
             "Seven theorems (Props/C18.v) incl. C18_trailing_nul_refuted (the full no-loss statement is false of the faithful model: numpy S/U dtypes strip trailing NULs; recorded as open known finding KF-C18-nul, matched structurally). partial: float32 exactness for binary32 fields is tied by correspondence.",
             "Trusted: Coq kernel+VM; Flocq; numpy's storage rule as modelled; xarray as a pass-through. Genuine defects F14a, F14c, F14d found by this check and repaired by fix: commits.",
             "DESIGN.md section 4 C18"),
-    "C17": ("Coq proof (type/parameter tables duplicate-free and resolving; linked graph: base references resolve, caches hold the document's own definitions, inheritor lists exactly the containers naming the base, each once; duplicate type and dangling type reference rejected) + loader model (recursive base/nested resolution with fuel) + kernel-evaluated correspondence on documents and single-point corruptions, with object identity checked by the dumper",
-            "Six theorems (Props/C17.v). partial: rejection of container-level corruptions (dangling entry/base, conflicting duplicate, cycles = out of fuel) is established by the correspondence (the executable statement: a corrupted document must be rejected), not by a general theorem; Python object identity has no Gallina counterpart.",
+    "C17": ("Coq proof (type/parameter tables duplicate-free and resolving; linked graph: base references resolve, caches hold the document's own definitions, inheritor lists exactly the containers naming the base, each once; duplicate type and dangling type reference rejected; containers: every name once, each the document's own element, every base/nested reference resolves to a container inserted earlier (rank), hence no reference cycle; dangling parameter entry / base / nested container, conflicting duplicate container and reference cycles of any length are rejected) + loader model (recursive base/nested resolution with fuel, dict assignment) + kernel-evaluated correspondence on documents and single-point corruptions, with object identity checked by the dumper",
+            "Eighteen theorems (Props/C17.v). partial: Python object identity has no Gallina counterpart (names stand for objects; identity is checked by the dumper on the implementation); duplicate parameter names and deleted definitions are covered by the parameter/type theorems plus the correspondence on 15 corruption kinds.",
             "Trusted: Coq kernel+VM; lxml parsing; the harness' typed-attribute conversion table.",
             "DESIGN.md section 4 C17"),
     "C16": ("Coq proof (the element view the readers use is invariant under removal of comments and inter-element whitespace at any depth, by tree induction; the namespace state is overwritten before first use, so any history of loads is irrelevant; prefix name / default namespace irrelevant) + kernel-evaluated correspondence: 4 namespace spellings x decorations x load histories in one process vs the plain rendering",
